@@ -1,6 +1,7 @@
 package props
 
 import (
+	"reflect"
 	"bytes"
 	"fmt"
 	"sync"
@@ -477,6 +478,30 @@ func checkC14(c *c14Case, o *core.Obs) error {
 				return fmt.Errorf("frame %d size: demuxer %dx%d parser %dx%d, bitstream %dx%d", i, fi.Width, fi.Height, pf.Width, pf.Height, f.op.W, f.op.H)
 			}
 		}
+	}
+	// the streaming view of the same demuxer: the iterator yields exactly Frame(0..n-1), then reports the end
+	it := dmx.NewFrameIterator()
+	for i := range frames {
+		if !it.HasNext() {
+			return fmt.Errorf("frame iterator ends after %d of %d frames", i, len(frames))
+		}
+		a, errA := it.Next()
+		b, errB := dmx.Frame(i)
+		if errA != nil || errB != nil || !reflect.DeepEqual(a, b) {
+			return fmt.Errorf("frame iterator item %d (%v) differs from Frame(%d) (%v)", i, errA, i, errB)
+		}
+	}
+	if it.HasNext() {
+		return fmt.Errorf("frame iterator yields more than the %d frames added", len(frames))
+	}
+	if _, err := it.Next(); err == nil {
+		return fmt.Errorf("frame iterator: Next past the end succeeds")
+	}
+	if _, err := dmx.Frame(len(frames)); err == nil {
+		return fmt.Errorf("Demuxer.Frame(%d) of %d succeeds", len(frames), len(frames))
+	}
+	if _, err := dmx.Frame(-1); err == nil {
+		return fmt.Errorf("Demuxer.Frame(-1) succeeds")
 	}
 	if animated {
 		if dmx.LoopCount() != loop || p.Features().LoopCount != loop {
